@@ -63,6 +63,7 @@ def parseCtx (s : Str) : Option Ctx :=
   else if s = "backq".toList then some .backq else if s = "pipe".toList then some .pipe
   else if s = "stages".toList then some .stages else if s = "bg".toList then some .bg
   else if s = "procsub".toList then some .procsub else if s = "coproc".toList then some .coproc
+  else if s = "pl".toList then some .pl
   else none
 
 def textLines (ls : List Str) : Str := ls.flatMap (fun l => l ++ ['\n'])
@@ -93,11 +94,13 @@ def handle (toks : List Str) : Str :=
       else
         let a := exec rootP ctx sm r0.sh r0.world
         let changed := Comp.all.filter (fun c => compChanged c (prepare ctx r0.sh) a.shell)
+        let leaked := Comp.all.filter (fun c => compChanged c (parentOwn rootP ctx sm r0.sh) a.shell)
         let isCv := ctx = .cmdsub || ctx = .backq
         "st=".toList ++ (if a.aborted then "none".toList else natToStr a.status) ++
         " sub=".toList ++ esc (if isCv then [] else textLines a.out) ++
         " par=".toList ++ esc (textLines (dump a.shell a.world)) ++
         " diff=".toList ++ (if changed.isEmpty then ['-'] else joinWith [','] (changed.map (fun c => c.field.toList))) ++
+        " leak=".toList ++ (if leaked.isEmpty then ['-'] else joinWith [','] (leaked.map (fun c => c.field.toList))) ++
         " w0=".toList ++ showWorld r0.world ++
         " w1=".toList ++ showWorld a.world ++
         " cv=".toList ++ esc (if isCv then joinWith ['\n'] a.out else [])
